@@ -128,3 +128,16 @@ func hash160(b []byte) []byte {
 	r.Write(s[:])
 	return r.Sum(nil)
 }
+
+// roundTripJSON turns an event into what a JSON reader would see (float64 numbers, []interface{}).
+func roundTripJSON(e Ev) map[string]interface{} {
+	b, err := json.Marshal(e)
+	if err != nil {
+		panic(err)
+	}
+	var m map[string]interface{}
+	if err := json.Unmarshal(b, &m); err != nil {
+		panic(err)
+	}
+	return m
+}
